@@ -135,6 +135,27 @@ impl SecondaryStorage {
                         .expect("failed to vacuum unused rowsets");
                 }
             }
+
+            // vacuum unused DVs: the id generators restart from the entries of the manifest, so a
+            // DV file that no entry mentions any more would collide with a DV created later
+            let mut dir = fs::read_dir(options.path.join("dv")).await?;
+            while let Some(entry) = dir.next_entry().await? {
+                let file_name = entry.file_name();
+                let Some(ids) = file_name.to_str().and_then(|name| name.strip_suffix(".dv")) else {
+                    continue;
+                };
+                let mut ids = ids.splitn(3, '_');
+                if let (Some(Ok(table_id)), Some(Ok(rowset_id)), Some(Ok(dv_id))) = (
+                    ids.next().map(str::parse::<u32>),
+                    ids.next().map(str::parse::<u32>),
+                    ids.next().map(str::parse::<u64>),
+                ) && !dvs_to_open.contains_key(&(table_id, rowset_id, dv_id))
+                {
+                    fs::remove_file(entry.path())
+                        .await
+                        .expect("failed to vacuum unused DVs");
+                }
+            }
         }
 
         // TODO: parallel open
